@@ -321,6 +321,12 @@ def render_fn(fn, recipe, log):
             raise ExtractError(f"drop pattern {pat!r} matched {len(mm)} times")
         log["dropped_text"].append(mm[0].group(0).strip())
         body = body[:mm[0].start()] + body[mm[0].end():]
+    for pat, why in recipe.get("drop_all", []):
+        mm = list(re.finditer(pat, body))
+        if not mm:
+            raise ExtractError(f"drop_all pattern {pat!r} matched nothing")
+        log["dropped_text"].append(f"{mm[0].group(0).strip()}  ({len(mm)}x; {why})")
+        body = re.sub(pat, "", body)
     if recipe.get("drop_macros"):
         body = drop_macro_statements(body, recipe["drop_macros"], log)
     if recipe.get("erase_errors"):
@@ -328,6 +334,8 @@ def render_fn(fn, recipe, log):
     # generic desugarings (order matters: chains first, then patterns)
     for d in recipe.get("desugar", []):
         body = DESUGARINGS[d](body, log)
+    for c in recipe.get("closures", []):
+        body = annotate_closure(body, c, log)
     # rewrites
     for pat, repl, why in recipe.get("rewrite", []):
         new, k = re.subn(pat, repl, body)
@@ -389,6 +397,35 @@ def render_fn(fn, recipe, log):
         log.setdefault("outlined_fns", []).append(outlined)
     spec = recipe.get("spec", "")
     return f"{sig}\n{spec.rstrip()}\n{body}\n"
+
+
+def annotate_closure(body, c, log):
+    """Closure annotation (specification only, plus parameter-pattern desugaring):
+        |PAT| BODY     ->   |NAME: TY| -> (ret: RET) ensures ENS { PRELUDE BODY }
+    `at` is a regex matching the closure's parameter list `|..|`; BODY is whatever follows up to the
+    `)` / `,` that closes the enclosing call argument and is copied VERBATIM, so a change inside the
+    closure body reaches the verifier (the `ensures` is then a proof obligation about that body)."""
+    m = _anchor(body, c["at"], c.get("occ"), "closure")
+    depth, end = 0, None
+    for pos, ch in _scan_tokens(body, m.end()):
+        if ch in "([{":
+            depth += 1
+        elif ch in ")]}":
+            if depth == 0:
+                end = pos
+                break
+            depth -= 1
+        elif ch == "," and depth == 0:
+            end = pos
+            break
+    if end is None:
+        raise ExtractError("closure: end of body not found")
+    cbody = body[m.end():end].strip()
+    new = (f"{c['params']} -> (ret: {c['ret']}) ensures {c['ensures']} {{ {c.get('prelude', '')} {cbody} }}")
+    log["rewrites"].append(f"closure `{m.group(0)} {cbody[:50]}`: parameter/return types and an `ensures` added"
+                           + (f", parameter pattern desugared (`{c['prelude']}`)" if c.get("prelude") else "")
+                           + " -- body copied verbatim; the ensures is proved against it")
+    return body[:m.start()] + new + body[end:]
 
 
 def find_enum(src, name):
@@ -544,7 +581,49 @@ def desugar_ref_patterns(body, log):
     return body
 
 
-DESUGARINGS = {"let_chains": desugar_let_chains, "deref_pat": desugar_deref_patterns, "ref_pat": desugar_ref_patterns}
+def desugar_continue(body, log):
+    """`for .. { A; if C { continue; } REST }` -> `for .. { A; if C { } else { REST } }` where the
+    `if` is a statement directly in the loop body, has no else, and `continue;` is its only
+    statement. (Verus does not support `continue` in for-loops; the two forms are equivalent.)"""
+    count = 0
+    while True:
+        hit = None
+        for kw, bo, bc in loop_spans(body):
+            for if_pos, cstart, bopen, bclose in _find_ifs(body):
+                if not (bo < if_pos < bc):
+                    continue
+                inner = re.sub(r"//[^\n]*", "", body[bopen + 1:bclose]).strip()
+                if inner != "continue;":
+                    continue
+                # directly in this loop body? depth between bo and if_pos must be 1
+                depth = 0
+                for pos, ch in _scan_tokens(body, bo, if_pos):
+                    if ch == "{":
+                        depth += 1
+                    elif ch == "}":
+                        depth -= 1
+                if depth != 1:
+                    continue
+                nxt = _skip_ws_comments(body, bclose + 1)
+                if body.startswith("else", nxt):
+                    raise ExtractError("continue-if with an else branch: desugaring not defined")
+                hit = (bopen, bclose, bc)
+                break
+            if hit:
+                break
+        if not hit:
+            break
+        bopen, bclose, bc = hit
+        body = body[:bopen] + "{ }" + " else {" + body[bclose + 1:bc] + "}\n" + body[bc:]
+        count += 1
+    if re.search(r"\bcontinue\s*;", re.sub(r"//[^\n]*", "", body)):
+        raise ExtractError("`continue` in a shape the desugaring does not cover")
+    if count:
+        log["rewrites"].append(f"desugar continue: {count} `if C {{ continue; }} REST` -> `if C {{ }} else {{ REST }}` in for-loop bodies")
+    return body
+
+
+DESUGARINGS = {"continue": desugar_continue, "let_chains": desugar_let_chains, "deref_pat": desugar_deref_patterns, "ref_pat": desugar_ref_patterns}
 
 
 def erase_error_values(body, prefixes, log, replacement="VerifError {}"):
